@@ -240,14 +240,14 @@ PROPS = {
                      "external elements name their file by an absolute path"],
     ),
     "C18": dict(
-        lean_props=["H4.Props.C18"],
+        lean_props=["H4.Props.C18", "H4.Props.C18Fn"],
         engines=[
             E("repack", "e_repack.c", model="repack", quick=dict(cases=480, chunk=20, timeout=1500), thorough=dict(cases=6000, seeds=4, chunk=50, timeout=3000)),
         ],
         trusted_base=["the traversal / copy glue of hrepack (list_vg, copy_sds data loop, copy_gr, copy_vs, gen_dim, annotation copying) is not modelled beyond the decision WHICH vgroups / vdatas are created in the output (H4.Tools.isReserved / keepVgroup / keepVdata / keptFlags, tied by the `reserved` and `keep` lines): it is checked on the implementation by the API-level content comparator of harness/toolgen.h (independent of hdiff) and by tg_user_check, which looks every object of the generator's description up by (name, class) among ALL objects of the output, without an opinion about what is internal",
                       "what SDsetchunk/SDsetcompress/GRsetchunk/GRsetcompress leave behind for SDgetchunkinfo/SDgetcompinfo is modelled by `chunkedLayout` (3 lines) and tied by the `decide` lines"],
         assumptions=["names and classes of user objects come from the family around the library's internal names (an internal name in the other field, plus a suffix, a proper prefix, other case, empty, the longest names the tools' buffers hold: 63 for vdata names / classes / attribute names of vgroups and vdatas, 255 for data set, dimension and image names (one more each is a finding: hrepack's name buffers), 300 for vgroups; blanks, ',' and ':' inside); not generated: a data set, image or (in a file with images) vgroup NAMED RIG0.0 (the GR interface finds its own vgroup by that name alone), a data set named like a default dimension (it would be that dimension's coordinate variable), ',' in image attribute names (they become vdata field names), user vgroups / vdatas BELOW a vgroup that carries a library class; user objects whose class IS a library class are generated and expected to be left out (known finding user-object-with-library-class-dropped)",
-                     "object names in options are not empty and contain no ',' (an empty name makes parse_comp read an uninitialised obj_list entry); at most 31 'x' in a -c value (chunk_lengths[H4_MAX_VAR_DIMS] of the caller is not bounded by the parser); option-file tokens shorter than 10 characters (read_info: fscanf %s into stype[10])",
+                     "option strings: EVERY generated string goes to the in-process parser and to the binary (the former preconditions - non-empty object names, at most 31 'x' in a -c value, option-file tokens shorter than 10 characters - hid five memory-safety defects that are fixed now: 5787e18, b6f2d28, 6a32560, 1ed2b56, 6ab7877); the messy mode generates empty / comma-terminated object lists, names of 253..700 characters, 31..100 chunk lengths, szip masks of 1..10 characters, tokens at and beyond the capacity of scomp[10] / stype[5] / sdim[10], bytes >= 0x80, option-file tokens of 9..26 characters and quoted values of 1022..1100 characters",
                      "JPEG (lossy, 8-bit images only) and SZIP (not built) requests are covered by the option-code tie only, not by runs of the binary; no object is asked to have more than 4096 chunks (a file has 65535 reference numbers, one per chunk: beyond that SDendaccess / GRwriteimage fail at the format limit whatever hrepack decides; copy_sds's own 'maximum number of chunks' guard compares with INT_MAX and never triggers); such option vectors are tied at option level only"],
     ),
     "C19": dict(
